@@ -21,6 +21,7 @@ type Fact struct {
 	Val   bool     // for bool/nil/lt/eqv
 	Eq    string   // for eq family: known constant ("" if only exclusions known)
 	Ne    []string // for eq family: excluded constants (sorted)
+	In    []string // for eq family: X is one of these constants (sorted; set by membership tests in constant tables)
 	Deps  map[ssa.Value]bool
 	Reads []memRead
 	At    ssa.Instruction // instruction (If) that established it
@@ -33,6 +34,9 @@ func (f *Fact) String() string {
 	case "eq":
 		if f.Eq != "" {
 			return fmt.Sprintf("%s == %s", f.X, f.Eq)
+		}
+		if len(f.In) > 0 {
+			return fmt.Sprintf("%s ∈ {%s}", f.X, strings.Join(f.In, ","))
 		}
 		return fmt.Sprintf("%s ∉ {%s}", f.X, strings.Join(f.Ne, ","))
 	case "nil":
@@ -63,6 +67,9 @@ func (f *Fact) ident() string {
 		if f.Eq != "" {
 			return "=" + f.Eq
 		}
+		if len(f.In) > 0 {
+			return "∈" + strings.Join(f.In, ",")
+		}
 		return "≠" + strings.Join(f.Ne, ",")
 	}
 	if f.Val {
@@ -86,6 +93,7 @@ type heldLock struct {
 type frame struct {
 	call     *ssa.Call
 	fn       *ssa.Function
+	closure  *ssa.MakeClosure // when the callee is a closure: its bindings give the free variables
 	params   []*CE
 	retBlk   *ssa.BasicBlock
 	retIdx   int
@@ -156,6 +164,22 @@ func (s *State) boundArg(p *ssa.Parameter) *CE {
 			for j, q := range fr.fn.Params {
 				if q == p && j < len(fr.params) {
 					return fr.params[j]
+				}
+			}
+		}
+	}
+	return nil
+}
+
+// boundFree: the value a free variable of an inlined closure is bound to (the
+// captured variable's address in the enclosing function).
+func (s *State) boundFree(fv *ssa.FreeVar) ssa.Value {
+	for i := len(s.frames) - 1; i >= 0; i-- {
+		fr := s.frames[i]
+		if fr.fn == fv.Parent() && fr.closure != nil {
+			for j, q := range fr.fn.FreeVars {
+				if q == fv && j < len(fr.closure.Bindings) {
+					return fr.closure.Bindings[j]
 				}
 			}
 		}
@@ -381,7 +405,7 @@ func NewExplorer(p *Program, pu *Purity, fn *ssa.Function) *Explorer {
 	ex.Inline = defaultInline
 	for _, b := range fn.Blocks {
 		for _, in := range b.Instrs {
-			if mc, ok := in.(*ssa.MakeClosure); ok {
+			if mc, ok := in.(*ssa.MakeClosure); ok && closureEscapes(fn, mc) {
 				for _, bnd := range mc.Bindings {
 					if a, ok := bnd.(*ssa.Alloc); ok {
 						ex.closureAllocs[a] = true
@@ -393,16 +417,60 @@ func NewExplorer(p *Program, pu *Purity, fn *ssa.Function) *Explorer {
 	return ex
 }
 
+// closureEscapes: the closure may run at a time the explorer does not see (it
+// is started with go, deferred, stored, returned, or handed to something that
+// is not explored inline). A closure that is only called in place, or only
+// handed to same-package helpers that merely call it, is explored inline at
+// those calls, so the variables it captures stay tracked.
+func closureEscapes(fn *ssa.Function, mc *ssa.MakeClosure) bool {
+	if mc.Referrers() == nil {
+		return false
+	}
+	for _, r := range *mc.Referrers() {
+		call, ok := r.(*ssa.Call)
+		if !ok {
+			return true
+		}
+		if call.Call.Value == ssa.Value(mc) {
+			continue // called in place
+		}
+		f := call.Call.StaticCallee()
+		if f == nil || call.Call.IsInvoke() || len(f.Blocks) == 0 || !defaultInline(fn, f) {
+			return true
+		}
+		for i, a := range call.Call.Args {
+			if a != ssa.Value(mc) {
+				continue
+			}
+			if i >= len(f.Params) || f.Params[i].Referrers() == nil {
+				return true
+			}
+			for _, pr := range *f.Params[i].Referrers() {
+				pc, ok := pr.(*ssa.Call)
+				if !ok || pc.Call.Value != ssa.Value(f.Params[i]) {
+					return true // the helper does something other than calling it
+				}
+			}
+		}
+	}
+	return false
+}
+
 // Atom is a decoded branch condition.
 type Atom struct {
 	Const *bool
 	Kind  string
 	X, Y  string
 	C     string // for eq family: the constant compared with
+	In    []string // for eq family: membership in this set of constants (instead of C)
 	Neg   bool   // truth of the condition = !truth(atom) when Neg
 	Deps  map[ssa.Value]bool
 	Reads []memRead
 	XV    ssa.Value // resolved operand (for nil atoms)
+	// Alias: set when the atom was read back from a boolean local (the decoded atom of the
+	// value stored there). The variable keeps the value it was given even if the memory the
+	// underlying expression read has changed since, so decisions are also remembered per variable.
+	Alias string
 }
 
 func (a *Atom) key() string {
@@ -424,6 +492,17 @@ func bptr(b bool) *bool { return &b }
 // AtomOf decodes a boolean SSA value into an atom under the state's
 // resolution of phis and locals.
 func (ex *Explorer) AtomOf(st *State, v ssa.Value) *Atom {
+	// a boolean read back from a tracked local: the atom decoded when it was stored
+	if ld, ok := v.(*ssa.UnOp); ok && ld.Op == token.MUL && st != nil {
+		c := &canonCtx{ex: ex, st: st, deps: map[ssa.Value]bool{}}
+		if p := c.loc(ld.X); strings.HasPrefix(p, "new@") {
+			if e, ok := st.lookupStore(p); ok && e.suffix == "" && e.ce.Atom != nil {
+				cp := *e.ce.Atom
+				cp.Alias = fmt.Sprintf("boolvar:%s@%p", p, e.ce)
+				return &cp
+			}
+		}
+	}
 	v = ex.Resolve(st, v)
 	// boolean result of an inlined call: the atom decoded when the callee returned
 	if st != nil {
@@ -548,6 +627,18 @@ func (ex *Explorer) AtomOf(st *State, v ssa.Value) *Atom {
 			return at
 		}
 	}
+	// membership in a constant table: m[k] for a package-level map[K]bool that is only ever
+	// given its literal initialiser is `k ∈ {keys mapped to true}`
+	if lk, ok := v.(*ssa.Lookup); ok && !lk.CommaOk && isBoolT(lk.Type()) {
+		if ld, ok := lk.X.(*ssa.UnOp); ok && ld.Op == token.MUL {
+			if g, ok := ld.X.(*ssa.Global); ok {
+				if set, ok := constBoolTable(ex.P, g); ok && len(set) > 0 {
+					ce := ex.Canon(st, lk.Index)
+					return &Atom{Kind: "eq", X: ce.S, In: set, Deps: ce.Deps, Reads: ce.Reads}
+				}
+			}
+		}
+	}
 	if call, ok := v.(*ssa.Call); ok {
 		if fn := call.Call.StaticCallee(); fn != nil && reflexiveTrue[fn.String()] && len(call.Call.Args) == 2 {
 			if ex.Canon(st, call.Call.Args[0]).S == ex.Canon(st, call.Call.Args[1]).S {
@@ -622,6 +713,16 @@ func evalAtom(st *State, a *Atom) int {
 		}
 		return 0
 	}
+	if a.Alias != "" {
+		if f, ok := st.live[a.Alias]; ok {
+			// f.Val is the truth of the atom itself (before Neg)
+			r := b2i(f.Val)
+			if a.Neg {
+				r = 1 - r
+			}
+			return r
+		}
+	}
 	f, ok := st.live[a.key()]
 	if !ok {
 		return -1
@@ -629,13 +730,44 @@ func evalAtom(st *State, a *Atom) int {
 	res := -1
 	switch a.Kind {
 	case "eq":
-		if f.Eq != "" {
-			res = b2i(f.Eq == a.C)
-		} else {
-			for _, n := range f.Ne {
-				if n == a.C {
-					res = 0
+		set := a.In
+		if len(set) == 0 {
+			set = []string{a.C}
+		}
+		has := func(xs []string, x string) bool {
+			for _, y := range xs {
+				if x == y {
+					return true
 				}
+			}
+			return false
+		}
+		switch {
+		case f.Eq != "":
+			res = b2i(has(set, f.Eq))
+		case len(f.In) > 0:
+			all, none := true, true
+			for _, x := range f.In {
+				if has(set, x) {
+					none = false
+				} else {
+					all = false
+				}
+			}
+			if all {
+				res = 1
+			} else if none {
+				res = 0
+			}
+		default:
+			excluded := true
+			for _, x := range set {
+				if !has(f.Ne, x) {
+					excluded = false
+				}
+			}
+			if excluded {
+				res = 0
 			}
 		}
 	default:
@@ -668,14 +800,62 @@ func assume(st *State, a *Atom, cond bool, at ssa.Instruction) {
 			f.Held = append(f.Held, h.Key)
 		}
 		if a.Kind == "eq" {
+			set := a.In
+			if len(set) == 0 {
+				set = []string{a.C}
+			}
+			inSet := func(xs []string, x string) bool {
+				for _, y := range xs {
+					if x == y {
+						return true
+					}
+				}
+				return false
+			}
 			if val {
-				f.Eq = a.C
+				// X is one of set (narrowed by what was known before)
+				cand := append([]string{}, set...)
+				if old != nil && old.Kind == "eq" && old.Eq == "" {
+					if len(old.In) > 0 {
+						cand = nil
+						for _, x := range old.In {
+							if inSet(set, x) {
+								cand = append(cand, x)
+							}
+						}
+					}
+					var c2 []string
+					for _, x := range cand {
+						if !inSet(old.Ne, x) {
+							c2 = append(c2, x)
+						}
+					}
+					cand = c2
+				}
+				sort.Strings(cand)
+				if len(cand) == 1 {
+					f.Eq = cand[0]
+				} else {
+					f.In = cand
+				}
 			} else {
 				if old != nil && old.Kind == "eq" && old.Eq == "" {
 					f.Ne = append(f.Ne, old.Ne...)
 					f.Deps = mergeDeps(f.Deps, old.Deps)
+					for _, x := range old.In {
+						if !inSet(set, x) {
+							f.In = append(f.In, x)
+						}
+					}
+					if len(f.In) == 1 {
+						f.Eq, f.In = f.In[0], nil
+					}
 				}
-				f.Ne = append(f.Ne, a.C)
+				for _, x := range set {
+					if !inSet(f.Ne, x) {
+						f.Ne = append(f.Ne, x)
+					}
+				}
 				sort.Strings(f.Ne)
 			}
 		}
@@ -683,6 +863,10 @@ func assume(st *State, a *Atom, cond bool, at ssa.Instruction) {
 	}
 	st.live[k] = mk(st.live[k])
 	st.hist[k] = mk(st.hist[k])
+	if a.Alias != "" && a.Kind != "eq" {
+		// no reads, no deps: survives stores and calls, as the variable's value does
+		st.live[a.Alias] = &Fact{Kind: "bool", X: a.Alias, Val: val, At: at, Epoch: st.epoch}
+	}
 }
 
 // ---- effects --------------------------------------------------------------
@@ -726,7 +910,7 @@ func (ex *Explorer) killByStore(st *State, addr ssa.Value) {
 		}
 	}
 	if strings.HasPrefix(c.S, "new@") {
-		if ra := rootAlloc(addr); ra != nil && !ex.closureAllocs[ra] {
+		if ra := rootAllocIn(st, addr); ra != nil && !ex.closureAllocs[ra] {
 			// a private local: only reads of that very location are affected
 			field, glob, elemT = nil, nil, ""
 		}
@@ -863,7 +1047,7 @@ func (ex *Explorer) step(st *State, in ssa.Instruction) {
 	case *ssa.Store:
 		p := ex.CanonAddr(st, x.Addr)
 		ex.killByStore(st, x.Addr)
-		localRoot := rootAlloc(x.Addr)
+		localRoot := rootAllocIn(st, x.Addr)
 		if localRoot == nil && pointerLikeOrNilable(x.Val.Type()) {
 			// the store itself establishes what a later load of the location yields
 			rv := ex.Resolve(st, x.Val)
@@ -898,7 +1082,12 @@ func (ex *Explorer) step(st *State, in ssa.Instruction) {
 						delete(st.store, k)
 					}
 				}
-				st.store[p.S] = ex.Canon(st, x.Val)
+				ce := ex.Canon(st, x.Val)
+				if isBoolT(x.Val.Type()) {
+					// decoded now, while the value's own context (an inlined closure's frame) is in scope
+					ce.Atom = ex.AtomOf(st, x.Val)
+				}
+				st.store[p.S] = ce
 			}
 		}
 	case *ssa.MapUpdate:
@@ -924,6 +1113,33 @@ func (ex *Explorer) step(st *State, in ssa.Instruction) {
 	case *ssa.Go:
 		ex.killByCall(st, &x.Call)
 	}
+}
+
+// rootAllocIn is rootAlloc that follows the free variables of closures explored inline
+// to the captured variable.
+func rootAllocIn(st *State, v ssa.Value) *ssa.Alloc {
+	for i := 0; i < 20; i++ {
+		switch x := v.(type) {
+		case *ssa.Alloc:
+			return x
+		case *ssa.FieldAddr:
+			v = x.X
+		case *ssa.IndexAddr:
+			v = x.X
+		case *ssa.FreeVar:
+			if st == nil {
+				return nil
+			}
+			b := st.boundFree(x)
+			if b == nil {
+				return nil
+			}
+			v = b
+		default:
+			return nil
+		}
+	}
+	return nil
 }
 
 func rootAlloc(v ssa.Value) *ssa.Alloc {
@@ -1183,13 +1399,23 @@ func (ex *Explorer) Run() {
 							callee = f
 						}
 					}
+					var closure *ssa.MakeClosure
+					if callee == nil && !call.Call.IsInvoke() {
+						// a closure (bound to a function-typed parameter of an inlined helper, or called in
+						// place): explored inline with its free variables bound to the captured variables
+						if mc, ok := ex.Resolve(cur, call.Call.Value).(*ssa.MakeClosure); ok {
+							if f, ok := mc.Fn.(*ssa.Function); ok {
+								callee, closure = f, mc
+							}
+						}
+					}
 					if callee != nil && !call.Call.IsInvoke() && ex.canInline(cur, callee) && ex.Inline(ex.curFn(cur), callee) {
 						if os.Getenv("CDLINT_DEBUG_INLINE") != "" {
 							fmt.Fprintf(os.Stderr, "inline %s into %s\n", callee.Name(), ex.curFn(cur).Name())
 						}
 						n := cur.clone()
 						n.parent = st
-						fr := &frame{call: call, fn: callee, retBlk: b, retIdx: i + 1, retPred: cur.pred, deferred: cur.deferred}
+						fr := &frame{call: call, fn: callee, closure: closure, retBlk: b, retIdx: i + 1, retPred: cur.pred, deferred: cur.deferred}
 						for _, a := range call.Call.Args {
 							fr.params = append(fr.params, ex.Canon(cur, a))
 						}
@@ -1259,7 +1485,7 @@ func (ex *Explorer) canInline(st *State, callee *ssa.Function) bool {
 		ex.inlinedClosureScan[callee] = true
 		for _, b := range callee.Blocks {
 			for _, in := range b.Instrs {
-				if mc, ok := in.(*ssa.MakeClosure); ok {
+				if mc, ok := in.(*ssa.MakeClosure); ok && closureEscapes(callee, mc) {
 					for _, bnd := range mc.Bindings {
 						if a, ok := bnd.(*ssa.Alloc); ok {
 							ex.closureAllocs[a] = true
@@ -1756,8 +1982,83 @@ func defaultInline(caller, callee *ssa.Function) bool {
 	if strings.HasPrefix(callee.Name(), "setup") {
 		return false
 	}
-	if curProg != nil && usedAsValue(curProg)[callee] {
+	if curProg != nil && callee.Parent() == nil && usedAsValue(curProg)[callee] && hasEntrySignature(curProg, callee) {
 		return false // registered as a setup function / handed out as a handler
 	}
 	return fnPkgPath(caller) == fnPkgPath(callee)
+}
+
+var constBoolTableMemo = map[*ssa.Global][]string{}
+
+// constBoolTable: g is a package-level map[K]bool written only by its
+// initialiser, a map literal with constant keys; returns the keys mapped to true.
+func constBoolTable(p *Program, g *ssa.Global) ([]string, bool) {
+	if v, ok := constBoolTableMemo[g]; ok {
+		return v, v != nil
+	}
+	constBoolTableMemo[g] = nil
+	stores := findStores(p, nil, g)
+	if len(stores) != 1 || stores[0].Parent().Name() != "init" {
+		return nil, false
+	}
+	mk, ok := stores[0].Val.(*ssa.MakeMap)
+	if !ok || mk.Referrers() == nil {
+		return nil, false
+	}
+	var set []string
+	for _, r := range *mk.Referrers() {
+		switch x := r.(type) {
+		case *ssa.MapUpdate:
+			k, ok1 := x.Key.(*ssa.Const)
+			val, ok2 := x.Value.(*ssa.Const)
+			if !ok1 || !ok2 || x.Map != ssa.Value(mk) {
+				return nil, false
+			}
+			if constStr(val) == "true" {
+				set = append(set, constStr(k))
+			}
+		case *ssa.Store:
+			if x.Val != ssa.Value(mk) {
+				return nil, false
+			}
+		default:
+			return nil, false
+		}
+	}
+	// never updated through the variable anywhere else
+	for fn := range p.AllFunctions() {
+		if !FirstParty(fn) {
+			continue
+		}
+		for _, b := range fn.Blocks {
+			for _, in := range b.Instrs {
+				if mu, ok := in.(*ssa.MapUpdate); ok {
+					if ld, ok := mu.Map.(*ssa.UnOp); ok && ld.X == ssa.Value(g) {
+						return nil, false
+					}
+				}
+				if call, ok := in.(*ssa.Call); ok {
+					if b, ok := call.Call.Value.(*ssa.Builtin); ok && (b.Name() == "delete" || b.Name() == "clear") && len(call.Call.Args) > 0 {
+						if ld, ok := call.Call.Args[0].(*ssa.UnOp); ok && ld.X == ssa.Value(g) {
+							return nil, false
+						}
+					}
+				}
+			}
+		}
+	}
+	sort.Strings(set)
+	constBoolTableMemo[g] = set
+	return set, true
+}
+
+// hasEntrySignature: the function has the type of a plugin setup function or of a handler.
+func hasEntrySignature(p *Program, fn *ssa.Function) bool {
+	sg := sigNoRecv(fn.Signature)
+	for _, t := range []*types.Signature{p.sigOf("handler", "Handler4"), p.sigOf("handler", "Handler6"), p.sigOf("plugins", "SetupFunc4"), p.sigOf("plugins", "SetupFunc6")} {
+		if sameSig(sg, t) {
+			return true
+		}
+	}
+	return false
 }
